@@ -948,7 +948,19 @@ fn resolve_id(r: &IdRef, creds: &[ModelCred], rp: &str) -> Vec<u8> {
     }
 }
 
-fn descriptors(ids: &[Vec<u8>], unknown_type: &[bool]) -> Vec<PublicKeyCredentialDescriptor> {
+fn transports_of(code: u8) -> Option<Vec<webauthn::AuthenticatorTransport>> {
+    use webauthn::AuthenticatorTransport as T;
+    match code {
+        1 => Some(vec![T::Usb]),
+        2 => Some(vec![T::Internal]),
+        3 => Some(vec![]),
+        4 => Some(vec![T::Usb, T::Nfc, T::Ble]),
+        5 => Some(vec![T::Hybrid, T::Internal]),
+        _ => None,
+    }
+}
+
+fn descriptors(ids: &[Vec<u8>], unknown_type: &[bool], transports: &[u8]) -> Vec<PublicKeyCredentialDescriptor> {
     ids.iter()
         .enumerate()
         .map(|(i, id)| PublicKeyCredentialDescriptor {
@@ -958,7 +970,7 @@ fn descriptors(ids: &[Vec<u8>], unknown_type: &[bool]) -> Vec<PublicKeyCredentia
                 PublicKeyCredentialType::PublicKey
             },
             id: id.clone().into(),
-            transports: None,
+            transports: transports_of(transports.get(i).copied().unwrap_or(0)),
         })
         .collect()
 }
@@ -1123,7 +1135,7 @@ async fn run_op(
                     challenge: s.challenge.clone().into(),
                     pub_key_cred_params: alg_params(&s.algs),
                     timeout: None,
-                    exclude_credentials: exclude.as_ref().map(|l| descriptors(l, &op.unknown_type)),
+                    exclude_credentials: exclude.as_ref().map(|l| descriptors(l, &op.unknown_type, &op.list_transports)),
                     authenticator_selection: s.sel.as_ref().map(|sel| {
                         webauthn::AuthenticatorSelectionCriteria {
                             authenticator_attachment: None,
@@ -1210,7 +1222,7 @@ async fn run_op(
                     challenge: s.challenge.clone().into(),
                     timeout: None,
                     rp_id: rp.rp_id.map(str::to_owned),
-                    allow_credentials: allow.as_ref().map(|l| descriptors(l, &op.unknown_type)),
+                    allow_credentials: allow.as_ref().map(|l| descriptors(l, &op.unknown_type, &op.list_transports)),
                     user_verification: uv_req(s.uv),
                     hints: None,
                     attestation: Default::default(),
@@ -1289,7 +1301,7 @@ async fn run_op(
                     name: "n".into(),
                 },
                 pub_key_cred_params: alg_params(&s.algs),
-                exclude_list: exclude.as_ref().map(|l| descriptors(l, &op.unknown_type)),
+                exclude_list: exclude.as_ref().map(|l| descriptors(l, &op.unknown_type, &op.list_transports)),
                 extensions,
                 options: ctap2::make_credential::Options { rk: s.rk, up: s.up, uv: s.uv },
                 pin_auth: s.pin_auth.then(|| vec![1u8; 16].into()),
@@ -1332,7 +1344,7 @@ async fn run_op(
             let request = ctap2::get_assertion::Request {
                 rp_id: s.rp_id.clone(),
                 client_data_hash: s.cdh.clone().into(),
-                allow_list: allow.as_ref().map(|l| descriptors(l, &op.unknown_type)),
+                allow_list: allow.as_ref().map(|l| descriptors(l, &op.unknown_type, &op.list_transports)),
                 extensions,
                 options: ctap2::get_assertion::Options { rk: s.rk, up: s.up, uv: s.uv },
                 pin_auth: s.pin_auth.then(|| vec![1u8; 16].into()),
